@@ -9,6 +9,14 @@ ROOT = os.path.dirname(os.path.dirname(os.path.abspath(__file__)))
 R = os.path.join(ROOT, 'tmp-repo')
 T = os.path.join(ROOT, 'tmp-sens')
 GEN = os.path.join(ROOT, 'lean/Gostatix/Generated/LockTable.lean')
+# RENAME=1: every case runs on top of H4 h1 (mutex field `lock` renamed to `mu` in the five structs)
+RENAME = os.environ.get('RENAME') == '1'
+
+
+def rn(text):
+    return text.replace('.lock.', '.mu.').replace('.lock,', '.mu,').replace('.lock)', '.mu)') if RENAME else text
+
+
 ENV = dict(os.environ, GOFLAGS='-mod=mod', GOPROXY='off', GOSUMDB='off', GOTOOLCHAIN='local')
 
 
@@ -142,9 +150,10 @@ CUCKOO_INSERT_EXPLICIT = CUCKOO_INSERT % '\tcuckooFilter.length++\n\tcuckooFilte
 def cuckoo_literal_move(src):
     a, b = method_span(src, 'CuckooFilter', 'Insert')
     body = src[a:b]
-    body = body.replace('\tdefer cuckooFilter.lock.Unlock()\n', '', 1)
+    assert rn('\tdefer cuckooFilter.lock.Unlock()\n') in body
+    body = body.replace(rn('\tdefer cuckooFilter.lock.Unlock()\n'), '', 1)
     i = body.rindex('\tcuckooFilter.length++\n')
-    body = body[:i] + '\tcuckooFilter.lock.Unlock()\n' + body[i:]
+    body = body[:i] + rn('\tcuckooFilter.lock.Unlock()\n') + body[i:]
     return src[:a] + body + src[b:]
 
 CUCKOO_REMOVE_EXPLICIT = '''func (cuckooFilter *CuckooFilter) Remove(data []byte) bool {
@@ -239,8 +248,8 @@ def topk_reversed():
     p = os.path.join(R, 'top_k.go')
     src = open(p).read()
     a, b = method_span(src, 'TopK', 'Values')
-    body = src[a:b].replace('\tt.lock.Lock()\n\tdefer t.lock.Unlock()\n',
-                            '\tt.sketch.lock.Lock()\n\tdefer t.sketch.lock.Unlock()\n\tt.lock.Lock()\n\tdefer t.lock.Unlock()\n', 1)
+    body = src[a:b].replace(rn('\tt.lock.Lock()\n\tdefer t.lock.Unlock()\n'),
+                            rn('\tt.sketch.lock.Lock()\n\tdefer t.sketch.lock.Unlock()\n\tt.lock.Lock()\n\tdefer t.lock.Unlock()\n'), 1)
     assert body != src[a:b]
     open(p, 'w').write(src[:a] + body + src[b:])
 
@@ -272,12 +281,76 @@ HLL_RESET_LOCK_IN_LOOP = '''func (h *HyperLogLog) Reset() {
 '''
 
 
+# check-then-act hidden in two private helpers that each take the lock themselves
+HLL_UPDATE_SPLIT_IN_HELPERS = '''func (h *HyperLogLog) Update(data []byte) {
+	registerIndex, count := h.getRegisterIndexAndCount(data)
+	if uint(h.peek(registerIndex)) >= uint(uint8(count)) {
+		return
+	}
+	h.store(registerIndex, count)
+}
+
+func (h *HyperLogLog) peek(registerIndex uint64) uint8 {
+	h.lock.Lock()
+	defer h.lock.Unlock()
+	return h.registers[registerIndex]
+}
+
+func (h *HyperLogLog) store(registerIndex, count uint64) {
+	h.lock.Lock()
+	defer h.lock.Unlock()
+	h.registers[registerIndex] = uint8(count)
+}
+'''
+
+HLL_UPDATE_SPLIT_IN_HELPERS_TOP = HLL_UPDATE_SPLIT_IN_HELPERS.replace(
+    '''	if uint(h.peek(registerIndex)) >= uint(uint8(count)) {''', '''	current := h.peek(registerIndex)
+	if uint(current) >= uint(uint8(count)) {''')
+assert HLL_UPDATE_SPLIT_IN_HELPERS_TOP != HLL_UPDATE_SPLIT_IN_HELPERS
+
+
+# the snapshot helper of H4 h2, but called while the receiver's lock is held
+def merge_helper_nested():
+    p = os.path.join(R, 'count_min_sketch.go')
+    src = open(p).read()
+    a, b = method_span(src, 'CountMinSketch', 'Merge')
+    new = rn(CMS_MERGE_NESTED)
+    i = new.index(rn('\tcms1.lock.Lock()\n'))
+    j = new.index(rn('\tcms1.lock.Unlock()\n')) + len(rn('\tcms1.lock.Unlock()\n'))
+    new = new[:i] + '\tother := cms1.snapshotMatrix()\n' + new[j:]
+    new += rn('''
+func (cms *CountMinSketch) snapshotMatrix() [][]uint64 {
+	cms.lock.Lock()
+	snapshot := make([][]uint64, len(cms.matrix))
+	for i := range cms.matrix {
+		snapshot[i] = append([]uint64(nil), cms.matrix[i]...)
+	}
+	cms.lock.Unlock()
+	return snapshot
+}
+''')
+    open(p, 'w').write(src[:a] + new + src[b:])
+
+
+# a second mutex field: which one is "the" instance mutex is no longer determined by the declared type
+def second_mutex():
+    p = os.path.join(R, 'hyperloglog.go')
+    src = open(p).read()
+    old = rn('\tlock      sync.RWMutex\n').replace('.mu', '.mu')
+    if RENAME:
+        m = re.search(r'\tmu +sync\.RWMutex\n', src)
+    else:
+        m = re.search(r'\tlock +sync\.RWMutex\n', src)
+    assert m
+    open(p, 'w').write(src[:m.end()] + '\tstatsLock sync.Mutex\n' + src[m.end():])
+
+
 def repl(file, typ, name, new):
     def f():
         p = os.path.join(R, file)
         s = open(p).read()
         a, b = method_span(s, typ, name)
-        open(p, 'w').write(s[:a] + new + s[b:])
+        open(p, 'w').write(s[:a] + rn(new) + s[b:])
     return f
 
 
@@ -298,6 +371,10 @@ CASES = [
     ('iii-literal', 'CuckooFilter.Insert: `defer Unlock` replaced by one Unlock before the last write', literal_move),
     ('iii-branch', 'CuckooFilter.Remove: explicit Unlocks, in ONE branch the Unlock sits before the write', repl('cuckoo_filter.go', 'CuckooFilter', 'Remove', CUCKOO_REMOVE_EARLY_UNLOCK_IN_BRANCH)),
     ('missing', 'CuckooFilter.Remove: explicit Unlocks, ONE branch returns without Unlock', repl('cuckoo_filter.go', 'CuckooFilter', 'Remove', CUCKOO_REMOVE_MISSING_UNLOCK)),
+    ('helpers-split', 'HyperLogLog.Update: compare in private locking helper peek(), store in private locking helper store() (call in the if condition)', repl('hyperloglog.go', 'HyperLogLog', 'Update', HLL_UPDATE_SPLIT_IN_HELPERS)),
+    ('helpers-split-top', 'the same with `current := h.peek(..)` as a statement of the body', repl('hyperloglog.go', 'HyperLogLog', 'Update', HLL_UPDATE_SPLIT_IN_HELPERS_TOP)),
+    ('helper-nested', 'CountMinSketch.Merge calls the private snapshotMatrix() helper of H4 h2 while holding the receiver lock', merge_helper_nested),
+    ('two-mutexes', 'HyperLogLog gets a second field of type sync.Mutex', second_mutex),
     ('order', 'TopK.Values takes the sketch lock first, then the Top-K lock', topk_reversed),
     ('passed', 'HyperLogLog.Reset hands &h.lock to a helper function', repl('hyperloglog.go', 'HyperLogLog', 'Reset', HLL_RESET_LOCK_PASSED)),
     ('loop', 'HyperLogLog.Reset locks once per register inside the loop', repl('hyperloglog.go', 'HyperLogLog', 'Reset', HLL_RESET_LOCK_IN_LOOP)),
@@ -305,7 +382,7 @@ CASES = [
     ('h-merge-helpers', 'harmless: both halves of CountMinSketch.Merge moved into helpers called with the lock held, explicit Unlock', repl('count_min_sketch.go', 'CountMinSketch', 'Merge', CMS_MERGE_HELPERS)),
     ('h-explicit-remove', 'harmless: CuckooFilter.Remove with an explicit Unlock before every return instead of defer', repl('cuckoo_filter.go', 'CuckooFilter', 'Remove', CUCKOO_REMOVE_EXPLICIT)),
     ('h-explicit-insert', 'harmless: CuckooFilter.Insert with an explicit Unlock before every return / panic, after the last write', repl('cuckoo_filter.go', 'CuckooFilter', 'Insert', CUCKOO_INSERT_EXPLICIT)),
-    ('h-locking-helper', 'harmless but NOT on the lists: HyperLogLog.Update delegates to a helper that takes the lock itself', repl('hyperloglog.go', 'HyperLogLog', 'Update', HLL_UPDATE_LOCKING_HELPER)),
+    ('h-locking-helper', 'harmless: HyperLogLog.Update delegates to a private helper that takes the lock itself', repl('hyperloglog.go', 'HyperLogLog', 'Update', HLL_UPDATE_LOCKING_HELPER)),
 ]
 
 
@@ -325,6 +402,11 @@ def main():
             shutil.rmtree(T, ignore_errors=True)
             shutil.copytree('/repo', R, ignore=shutil.ignore_patterns('.git'))
             os.makedirs(T)
+            if RENAME:
+                sh(['git', 'init', '-q', '.'], cwd=R)
+                rc, out = sh(['git', 'apply', '/tmp/harm/H4/_out/h1/patch.diff'], cwd=R)
+                assert rc == 0, out
+                shutil.rmtree(os.path.join(R, '.git'), ignore_errors=True)
             edit()
             rc, out = sh(['gofmt', '-l', '.'], cwd=R)
             rc, out = sh(['go', 'build', './...'], cwd=R)
